@@ -198,6 +198,22 @@ def _run(eng, kind, buf):
         eng.check(beq(app, rv.get('application_parameters')), 'fields-app')
         _sig_info_eq(eng, sig.signature_info, rv.get('signature_info'), 'fields-siginfo')
         eng.check(beq(sig.signature_value_buf, rv.get('signature_value')), 'fields-sigvalue')
+        # the digest component may stand anywhere in the name: its value, the digest range and the signed portion
+        digs = [c for c in rv['name'] if len(c) >= 2 and c[0] == 2]
+        if len(digs) == 1 and len(digs[0]) == 34:
+            eng.check(beq(sig.digest_value_buf, digs[0][2:]), 'fields-covered', sig='digest-value')
+        ps = rv['#region'].get('params_start')
+        if ps is not None:
+            eng.check(beq(bcat(*sig.digest_covered_part) if sig.digest_covered_part else b'', w[ps:rv['#outer'].ve]),
+                      'fields-covered', sig='digest-range')
+            if 'sigvalue' in rv['#region'] and len(digs) <= 1:
+                exp = []
+                for c in rv['name']:
+                    if not (len(c) >= 1 and c[0] == 2):
+                        exp += list(c)
+                exp += w[ps:rv['#region']['sigvalue'][0]]
+                eng.check(beq(bcat(*sig.signature_covered_part) if sig.signature_covered_part else b'', exp),
+                          'fields-covered', sig='signed-portion')
     elif kind == 'lp':
         for fld in ('incoming_face_id', 'next_hop_face_id', 'congestion_mark'):
             got = getattr(acc, fld)
@@ -264,6 +280,11 @@ def templates():
                                   _tlv(0x0c, b'\x0f\xa0') + _tlv(0x22, b'\x05')))
     T['int_signed'] = ('interest', _tlv(5, dname + _tlv(0x1e, name + name2) + _tlv(0x0a, b'\x00' * 4) + _tlv(0x24, b'xyz') +
                                    isiginfo + _tlv(0x2e, bytes(range(6)))))
+    dmid = _tlv(7, _tlv(8, b'ab') + _tlv(2, bytes(range(32))) + _tlv(8, b'c'))
+    dfirst = _tlv(7, _tlv(2, bytes(range(1, 33))) + _tlv(8, b'ab'))
+    T['int_signed_mid'] = ('interest', _tlv(5, dmid + _tlv(0x0a, b'\x00' * 4) + _tlv(0x24, b'xyz') + isiginfo +
+                                       _tlv(0x2e, bytes(range(6)))))
+    T['int_params_first'] = ('interest', _tlv(5, dfirst + _tlv(0x0a, b'\x00' * 4) + _tlv(0x24, b'')))
     T['lp_nack'] = ('lp', _tlv(0x64, _tlv(0x62, b'\x01\x02\x03\x04') + _tlv(0x0320, _tlv(0x0321, b'\x96')) +
                                _tlv(0x0340, b'\x01') + _tlv(0x50, T['int_plain'][1])))
     T['lp_data'] = ('lp', _tlv(0x64, _tlv(0x032C, b'\x01\x00') + _tlv(0x50, T['data_min'][1])))
